@@ -90,8 +90,9 @@ pub fn run(args: &Args, r: &mut Report) {
     r.rule_text = "Fault enumeration: EVERY sequence of length 1..3 (1 110) over the per-attempt outcome alphabet {transport, timeout, \
         caller error, 4xx, 5xx, 3xx, status + X-Retry-After, forged, unparseable 2xx, success} x {no prior poll interval, prior \
         poll interval persisted} x {CUP off, CUP on} as the scripted outcomes of one update check (sequences with 'forged' only \
-        with CUP on), each run once per repetition through the real state machine (one-shot); the thorough tier repeats the \
-        enumeration with different random details (statuses, documents, app sets) and adds start()-mode histories.  Shape key = \
+        with CUP on), each run once per repetition through the real state machine (one-shot); the enumeration is repeated \
+        (4x quick, 25x thorough) with different random details (statuses, documents, app sets), followed by start()-mode \
+        multi-check histories in which poll intervals set by one check govern the next.  Shape key = \
         outcome sequence + prior-poll + CUP.  Non-trivial = any sequence other than a single 'success'."
         .into();
     r.require(&[
@@ -159,6 +160,52 @@ pub fn run(args: &Args, r: &mut Report) {
                 "expected_retry_after_attempt": c.exp.retry_after_attempt,
                 "outcome": outcome_label(c),
             }));
+        }
+        absorb(r, args, i, m, &run.w, case_desc(&case));
+    }
+    // ---- the same monitors inside start()-mode multi-check histories (poll intervals carried from
+    // one check to the next, reboot waits with pings, CUP on/off)
+    let nh = args.budget(3_000, 60_000);
+    for j in 0..nh {
+        let i = 50_000_000 + j;
+        if args.skip(i) {
+            continue;
+        }
+        let mut rng = Rng::derive(args.seed, args.shard, 66, j);
+        let len = 1 + rng.usize(5);
+        let cfg = HistCfg {
+            start_mode: true,
+            cup: rng.bool(),
+            n_apps: 1 + rng.usize(2),
+            paths: (0..len).map(|_| *rng.pick(&ALL_PATHS)).collect(),
+            cohorts: false,
+            deliveries: rng.bool(),
+            random_params: false,
+            throttles: rng.bool(),
+        };
+        let mut case = gen_history(&mut rng, &cfg);
+        let apps = case.setup.apps.clone();
+        let l = add_reboot_waits(&mut case.script, &mut rng, false, &apps);
+        case.shape.push(l);
+        // definite X-Retry-After values on some replies: the interval set by one check governs the next
+        for c in case.script.checks.iter_mut() {
+            for a in c.attempts.iter_mut().chain(c.reports.iter_mut()) {
+                if let RespSpec::Reply(rep) = a {
+                    if rng.chance(1, 4) {
+                        rep.headers.push(("X-Retry-After".into(), rng.pick(&[&b"0"[..], b"60", b"86400", b"100000"]).to_vec()));
+                    }
+                }
+            }
+        }
+        case.sched = crate::sim::driver::Sched::Random;
+        case.shape.insert(0, "history".into());
+        let run = run_case(&case, &mut rng);
+        r.eval(case.shape_key(), true);
+        r.interleavings.insert(run.sig);
+        let mut m = Mon::default();
+        mon_c06(&run.flow, &mut m, &mut backoffs);
+        if let Some(p) = &run.panicked {
+            report_panic(r, args, i, p, &run.w, case_desc(&case));
         }
         absorb(r, args, i, m, &run.w, case_desc(&case));
     }
